@@ -9,7 +9,9 @@ offsets and all Content-Type oracles `ct` (the standard library's mime.ParseMedi
 Repaired in /repo and followed here: #15 (fix 1ac3d52: the entry of an empty-valued field covers its
 colon and line break; `fields_exact` is now full strength) and #16/#16b (fix d71238c: ParseNumber rejects
 numbers above 2^32-1, so no parsed command reaches the overflow or a negative begin;
-`partial_no_panic_for_parsed`).  WithPartial itself is unchanged: `partial_overflow_*` /
+`partial_no_panic_for_parsed`).  d28 (fix 047f712: field names are compared in the ASCII-only normal
+form `foldKey`; a requested name with U+212A KELVIN SIGN no longer selects `Key`; `fields_case_insensitive` is
+full strength, the old witness is a regression example).  WithPartial itself is unchanged: `partial_overflow_*` /
 `partial_negative_begin_panics` remain as facts about the unexported function outside the parser's range.
 
 Full-strength statements that are FALSE of the current code are proved false on a witness
@@ -17,8 +19,6 @@ Full-strength statements that are FALSE of the current code are proved false on 
   d24  BODY[HEADER]/BODY[TEXT] of a message whose own Content-Type is message/rfc822 are those of the
        embedded message                                           header_text_top_witness / header_text_top_partial
   anomaly  a numeric path below a part without children is ignored    part_leaf_ignores_path_witness
-  d28  a requested field name that is not ASCII is folded with Unicode rules (U+212A -> k, U+0130 -> i)
-                                                  fields_case_insensitive_witness / fields_case_insensitive_partial
 -/
 import GluonModel.Lemmas.Rfc822
 import GluonModel.Generated.Facts.Rfc822
@@ -385,62 +385,47 @@ theorem fields_all_is_header (h : Bytes) (es : List Entry) (want : List Bytes) (
 
 /-! ### which side a field lands on: selection by name, case-insensitively -/
 
-/-- Full strength over the model, for every header, entry and requested list: a field (an entry with a key
-    that is not white space only) is returned by `HEADER.FIELDS (names)` iff `strings.ToLower` of one of the
-    requested names equals the field's lower-cased name, and by `HEADER.FIELDS.NOT (names)` iff none does.
-    Nothing else about the name (token or not, punctuation, digits) enters the decision. -/
-theorem fields_select_by_name (names : List Bytes) (h : Bytes) (e : Entry)
+/-- Full strength (since fix 047f712; was d28), for every header, entry and requested list — any bytes, ASCII or
+    not: a field (an entry with a key that is not white space only) is returned by `HEADER.FIELDS (names)` iff
+    some requested name equals its name after mapping `A`–`Z` to `a`–`z` on both sides — byte for byte
+    otherwise, for token and non-token names alike, nothing else about the name (punctuation, digits, bytes
+    above 127) enters the decision — and by `HEADER.FIELDS.NOT (names)` iff none does. -/
+theorem fields_case_insensitive (names : List Bytes) (h : Bytes) (e : Entry)
     (hk : e.hasKey = true) (hs : isSpaceOnly (e.all h) = false) :
-    (selects false (names.map goLower) h e = true ↔ ∃ n ∈ names, goLower n = lowerBytes (e.key h)) ∧
-    (selects true (names.map goLower) h e = true ↔ ¬ ∃ n ∈ names, goLower n = lowerBytes (e.key h)) := by
+    (selects false (names.map foldKey) h e = true ↔ ∃ n ∈ names, lowerBytes n = lowerBytes (e.key h)) ∧
+    (selects true (names.map foldKey) h e = true ↔ ¬ ∃ n ∈ names, lowerBytes n = lowerBytes (e.key h)) := by
   constructor
-  · rw [selects_iff false _ h e hk hs]; simp [Entry.mapKey]
-  · rw [selects_iff true _ h e hk hs]; simp [Entry.mapKey]
+  · rw [selects_iff false _ h e hk hs]; simp [Entry.mapKey, foldKey]
+  · rw [selects_iff true _ h e hk hs]; simp [Entry.mapKey, foldKey]
+
+/-- … so the letter case in which the client writes the names is not observable in the data: two request
+    lists that agree up to ASCII letter case get the same bytes for every message, path and oracle. -/
+theorem fields_case_variants (ct : Bytes → CT) (lit : Bytes) (path : List Int) (neg : Bool)
+    (names names' : List Bytes) (hcase : names.map lowerBytes = names'.map lowerBytes) :
+    fetchBodySection ct lit ⟨path, .fields neg names⟩ = fetchBodySection ct lit ⟨path, .fields neg names'⟩ := by
+  have h1 : names.map foldKey = names.map lowerBytes := rfl
+  have h2 : names'.map foldKey = names'.map lowerBytes := rfl
+  unfold fetchBodySection
+  simp only [h1, h2, hcase]
 
 /-- The source says so (regenerated): the only name normalisation in `rfc822.NewHeader` (index key, `mapKey`) and
-    in `Header.Fields` / `Header.FieldsNot` (requested names) is `strings.ToLower` — the function the model's
-    `Entry.mapKey` / `goLower` render; `bytes.TrimSpace` is the white-space-only test (`isSpaceOnly`).  A change
-    of the normal form (another fold function on either side) changes this fact. -/
-theorem name_fold_is_tolower :
+    in `Header.Fields` / `Header.FieldsNot` (requested names) is the package's own `foldKey` (`bytes.TrimSpace`
+    is the white-space-only test `isSpaceOnly`, `newHeaderParser` the entry parser), and `foldKey` is: scan the
+    bytes up to the first one in `'A'..'Z'`; if there is none return the string itself, else copy it and add
+    `'a' - 'A'` to every byte in `'A'..'Z'` from there on — the range 65..90 shifted by 32, which is the model's
+    `lowerByte`.  A change of the normal form (another function at a call site, another loop, range or offset in
+    `foldKey`) changes these facts. -/
+theorem name_fold_is_foldkey :
     Facts.headerNameCalls =
-      [("Fields", ["bytes.TrimSpace", "strings.ToLower"]), ("FieldsNot", ["bytes.TrimSpace", "strings.ToLower"]),
-       ("NewHeader", ["strings.ToLower"])] := by decide
-
-/-- The statement one wants — "selected iff the name equals a requested name up to ASCII letter case" — is
-    FALSE of the current code for requested names that are not ASCII: `strings.ToLower` folds U+212A KELVIN
-    SIGN to `k` (and U+0130 to `i`), so `BODY[HEADER.FIELDS ({5}\r\n\xe2\x84\xaaEY)]` returns the field
-    `Key: v` although no ASCII case variant of `Key` was asked for (replayed on the real code: finding
-    K-header-fields-unicode-fold). -/
-theorem fields_case_insensitive_witness :
-    let h : Bytes := [75, 101, 121, 58, 32, 118, 13, 10, 13, 10]            -- "Key: v\r\n\r\n"
-    let asked : Bytes := [0xE2, 0x84, 0xAA, 69, 89]                         -- U+212A "EY"
-    parseEntries h = .ok [⟨0, 3, 5, 8⟩, ⟨8, 8, 8, 10⟩] ∧
-    fields h [⟨0, 3, 5, 8⟩, ⟨8, 8, 8, 10⟩] ([asked].map goLower) = h ∧
-    fieldsNot h [⟨0, 3, 5, 8⟩, ⟨8, 8, 8, 10⟩] ([asked].map goLower) = [13, 10] ∧
-    lowerBytes asked ≠ lowerBytes [75, 101, 121] := by decide
-
-/-- Under the named hypothesis that the requested names are ASCII (`IsAscii`; every name an RFC 5322 header can
-    have is), selection is exactly ASCII case-insensitive equality of the whole name: a field is returned by
-    `HEADER.FIELDS` iff some requested name equals its name after mapping `A`–`Z` to `a`–`z` on both sides —
-    byte for byte otherwise, for token and non-token names alike — and by `HEADER.FIELDS.NOT` iff none does. -/
-theorem fields_case_insensitive_partial (names : List Bytes) (h : Bytes) (e : Entry)
-    (AsciiNames : ∀ n ∈ names, IsAscii n)
-    (hk : e.hasKey = true) (hs : isSpaceOnly (e.all h) = false) :
-    (selects false (names.map goLower) h e = true ↔ ∃ n ∈ names, lowerBytes n = lowerBytes (e.key h)) ∧
-    (selects true (names.map goLower) h e = true ↔ ¬ ∃ n ∈ names, lowerBytes n = lowerBytes (e.key h)) := by
-  rw [map_goLower_ascii names AsciiNames]
-  constructor
-  · rw [selects_iff false _ h e hk hs]; simp [Entry.mapKey]
-  · rw [selects_iff true _ h e hk hs]; simp [Entry.mapKey]
-
-/-- … so the letter case in which the client writes the names is not observable in the data: two ASCII
-    request lists that agree up to letter case get the same bytes for every message, path and oracle. -/
-theorem fields_case_variants_partial (ct : Bytes → CT) (lit : Bytes) (path : List Int) (neg : Bool)
-    (names names' : List Bytes) (AsciiNames : ∀ n ∈ names, IsAscii n) (AsciiNames' : ∀ n ∈ names', IsAscii n)
-    (hcase : names.map lowerBytes = names'.map lowerBytes) :
-    fetchBodySection ct lit ⟨path, .fields neg names⟩ = fetchBodySection ct lit ⟨path, .fields neg names'⟩ := by
-  unfold fetchBodySection
-  simp only [map_goLower_ascii names AsciiNames, map_goLower_ascii names' AsciiNames', hcase]
+      [("Fields", ["bytes.TrimSpace", "foldKey"]), ("FieldsNot", ["bytes.TrimSpace", "foldKey"]),
+       ("NewHeader", ["foldKey", "newHeaderParser"])] ∧
+    Facts.foldKeyLoops = ["i := 0; i < len(key); i++", "j := i; j < len(b); j++"] ∧
+    Facts.foldKeyConds = ["c := key[i]; 'A' <= c && c <= 'Z'", "'A' <= b[j] && b[j] <= 'Z'"] ∧
+    Facts.foldKeyStmts = ["return key", "b := []byte(key)", "return string(b)", "b[j] += 'a' - 'A'"] ∧
+    Facts.foldKeyRange = some (65, 90, 32) ∧
+    (∀ c : UInt8, lowerByte c = if 65 ≤ c && c ≤ 90 then c + 32 else c) ∧
+    (∀ b : Bytes, foldKey b = b.map lowerByte) :=
+  ⟨by decide, by decide, by decide, by decide, by decide, fun _ => rfl, fun _ => rfl⟩
 
 /-! ### literal framing -/
 
@@ -495,15 +480,22 @@ example :
     let h : Bytes := [88, 45, 83, 112, 97, 109, 47, 83, 99, 111, 114, 101, 58, 32, 53, 13, 10, 13, 10]
     let es : List Entry := [⟨0, 12, 14, 17⟩, ⟨17, 17, 17, 19⟩]
     parseEntries h = .ok es ∧
-    fields h es ([[120, 45, 115, 112, 97, 109, 47, 83, 67, 79, 82, 69]].map goLower) = h ∧
-    fieldsNot h es ([[120, 45, 115, 112, 97, 109, 47, 83, 67, 79, 82, 69]].map goLower) = [13, 10] ∧
-    fields h es ([[88, 45, 83, 112, 97, 109, 45, 83, 99, 111, 114, 101]].map goLower) = [13, 10] ∧
-    fields h es ([[88, 45, 83, 112, 97, 109, 79, 83, 99, 111, 114, 101]].map goLower) = [13, 10] ∧
-    IsAscii [120, 45, 115, 112, 97, 109, 47, 83, 67, 79, 82, 69] := by
-  refine ⟨by decide, by decide, by decide, by decide, by decide, ?_⟩
-  intro c hc
-  simp only [List.mem_cons, List.not_mem_nil, or_false] at hc
-  rcases hc with rfl | rfl | rfl | rfl | rfl | rfl | rfl | rfl | rfl | rfl | rfl | rfl <;> decide
+    fields h es ([[120, 45, 115, 112, 97, 109, 47, 83, 67, 79, 82, 69]].map foldKey) = h ∧
+    fieldsNot h es ([[120, 45, 115, 112, 97, 109, 47, 83, 67, 79, 82, 69]].map foldKey) = [13, 10] ∧
+    fields h es ([[88, 45, 83, 112, 97, 109, 45, 83, 99, 111, 114, 101]].map foldKey) = [13, 10] ∧
+    fields h es ([[88, 45, 83, 112, 97, 109, 79, 83, 99, 111, 114, 101]].map foldKey) = [13, 10] := by decide
+
+/-- regression of d28 (fix 047f712): `HEADER.FIELDS (<U+212A>EY)` on `Key: v CRLF CRLF` no longer returns the
+    field (it did while the names were folded with `strings.ToLower`); `HEADER.FIELDS.NOT` returns it; the ASCII
+    variant `kEY` selects it -/
+example :
+    let h : Bytes := [75, 101, 121, 58, 32, 118, 13, 10, 13, 10]            -- "Key: v\r\n\r\n"
+    let asked : Bytes := [0xE2, 0x84, 0xAA, 69, 89]                         -- U+212A "EY"
+    parseEntries h = .ok [⟨0, 3, 5, 8⟩, ⟨8, 8, 8, 10⟩] ∧
+    fields h [⟨0, 3, 5, 8⟩, ⟨8, 8, 8, 10⟩] ([asked].map foldKey) = [13, 10] ∧
+    fieldsNot h [⟨0, 3, 5, 8⟩, ⟨8, 8, 8, 10⟩] ([asked].map foldKey) = h ∧
+    fields h [⟨0, 3, 5, 8⟩, ⟨8, 8, 8, 10⟩] ([[107, 69, 89]].map foldKey) = h ∧
+    foldKey asked = [0xE2, 0x84, 0xAA, 101, 121] := by decide
 
 /-- regression of #15: `X-Empty: CRLF Subject: s CRLF CRLF`; `HEADER.FIELDS (X-Empty Subject)` is now the
     exact header (it was `X-EmptySubject: s CRLF CRLF`) -/
